@@ -321,6 +321,12 @@ pub fn decompress_block(data: &[u8], lay: &CompLayout, i: usize) -> Result<Vec<u
 }
 
 pub fn compress_all(plain: &[u8], block: usize, level: u32) -> Vec<u8> {
+    compress_all_opts(plain, block, level, false)
+}
+
+/// `close_full_blocks`: a writer that closes each block the moment it is full: when the plaintext is a non-zero
+/// multiple of the block size it ends with one more, EMPTY, block (last_block_size = 0)
+pub fn compress_all_opts(plain: &[u8], block: usize, level: u32, close_full_blocks: bool) -> Vec<u8> {
     let mut out = Vec::new();
     let mut sizes: Vec<u32> = Vec::new();
     let mut last = 0u32;
@@ -332,6 +338,15 @@ pub fn compress_all(plain: &[u8], block: usize, level: u32) -> Vec<u8> {
         }
         sizes.push((out.len() - before) as u32);
         last = piece.len() as u32;
+    }
+    if close_full_blocks && !plain.is_empty() && plain.len() % block.max(1) == 0 {
+        let before = out.len();
+        {
+            let mut w = brotli::CompressorWriter::new(&mut out, 4096, level, 22);
+            w.write_all(&[]).expect("brotli");
+        }
+        sizes.push((out.len() - before) as u32);
+        last = 0;
     }
     out.extend_from_slice(&(sizes.len() as u64).to_le_bytes());
     for s in &sizes {
@@ -668,13 +683,32 @@ pub fn encode_index(entries: &[(String, Vec<u64>, u64, u64)]) -> Vec<u8> {
 /// interleaving `plan`: a list of (file index, piece length) steps; files are
 /// started lazily at their first piece and ended after their last.
 pub fn well_formed_stream(files: &[(String, Vec<u8>)], plan: &[(usize, usize)]) -> Vec<u8> {
+    let ids: Vec<u64> = (0..files.len() as u64).collect();
+    well_formed_stream_ids(files, plan, &ids)
+}
+
+/// Same, with the file ids chosen by the caller (the format only asks for ids that are unique within the archive:
+/// they need not be small or sequential)
+pub fn well_formed_stream_ids(files: &[(String, Vec<u8>)], plan: &[(usize, usize)], ids: &[u64]) -> Vec<u8> {
+    well_formed_stream_opts(files, plan, ids, false)
+}
+
+/// `every_block`: the index lists the offset of EVERY block of a file (as the example in FORMAT.md does) instead of the
+/// first block of each continuous run (what the library's writer emits)
+pub fn well_formed_stream_opts(files: &[(String, Vec<u8>)], plan: &[(usize, usize)], ids: &[u64], every_block: bool) -> Vec<u8> {
+    well_formed_stream_full(files, plan, ids, every_block, false)
+}
+
+/// `empty_blocks`: a FileContent block of length 0 is written before every non-empty one of a plan step (the
+/// description puts no minimum on a block's length)
+pub fn well_formed_stream_full(files: &[(String, Vec<u8>)], plan: &[(usize, usize)], ids: &[u64], every_block: bool, empty_blocks: bool) -> Vec<u8> {
     let mut blocks = Vec::new();
     let mut pos = vec![0usize; files.len()];
     let mut started = vec![false; files.len()];
     let mut ended = vec![false; files.len()];
     let mut owner: Vec<Option<usize>> = Vec::new(); // per block: file index
     let push_end = |blocks: &mut Vec<WBlock>, owner: &mut Vec<Option<usize>>, i: usize| {
-        blocks.push(WBlock::End { id: i as u64, hash: Sha256::digest(&files[i].1).into() });
+        blocks.push(WBlock::End { id: ids[i], hash: Sha256::digest(&files[i].1).into() });
         owner.push(Some(i));
     };
     for &(i, n) in plan {
@@ -682,13 +716,17 @@ pub fn well_formed_stream(files: &[(String, Vec<u8>)], plan: &[(usize, usize)]) 
             continue;
         }
         if !started[i] {
-            blocks.push(WBlock::Start { id: i as u64, name: files[i].0.as_bytes().to_vec() });
+            blocks.push(WBlock::Start { id: ids[i], name: files[i].0.as_bytes().to_vec() });
             owner.push(Some(i));
             started[i] = true;
         }
         let take = n.min(files[i].1.len() - pos[i]);
         if take > 0 {
-            blocks.push(WBlock::Content { id: i as u64, data: files[i].1[pos[i]..pos[i] + take].to_vec() });
+            if empty_blocks {
+                blocks.push(WBlock::Content { id: ids[i], data: Vec::new() });
+                owner.push(Some(i));
+            }
+            blocks.push(WBlock::Content { id: ids[i], data: files[i].1[pos[i]..pos[i] + take].to_vec() });
             owner.push(Some(i));
             pos[i] += take;
         }
@@ -699,12 +737,12 @@ pub fn well_formed_stream(files: &[(String, Vec<u8>)], plan: &[(usize, usize)]) 
     }
     for i in 0..files.len() {
         if !started[i] {
-            blocks.push(WBlock::Start { id: i as u64, name: files[i].0.as_bytes().to_vec() });
+            blocks.push(WBlock::Start { id: ids[i], name: files[i].0.as_bytes().to_vec() });
             owner.push(Some(i));
         }
         if !ended[i] {
             if pos[i] < files[i].1.len() {
-                blocks.push(WBlock::Content { id: i as u64, data: files[i].1[pos[i]..].to_vec() });
+                blocks.push(WBlock::Content { id: ids[i], data: files[i].1[pos[i]..].to_vec() });
                 owner.push(Some(i));
             }
             push_end(&mut blocks, &mut owner, i);
@@ -721,7 +759,7 @@ pub fn well_formed_stream(files: &[(String, Vec<u8>)], plan: &[(usize, usize)]) 
         let mut prev: Option<usize> = None;
         for (bi, o) in owner.iter().enumerate() {
             if *o == Some(i) {
-                if prev != Some(i) {
+                if prev != Some(i) || every_block {
                     offsets.push(offs[bi] as u64);
                 }
                 if matches!(blocks[bi], WBlock::End { .. }) {
@@ -788,8 +826,12 @@ pub fn encode_header(layers: u8, enc: Option<&EncSpec>) -> Vec<u8> {
 
 /// Wrap a file-layer stream into an archive image (the foreign writer)
 pub fn wrap(stream: &[u8], layers: u8, level: u32, enc: Option<&EncSpec>, par: Params) -> Vec<u8> {
+    wrap_opts(stream, layers, level, enc, par, false)
+}
+
+pub fn wrap_opts(stream: &[u8], layers: u8, level: u32, enc: Option<&EncSpec>, par: Params, close_full_blocks: bool) -> Vec<u8> {
     let mut img = encode_header(layers, if layers & 1 != 0 { enc } else { None });
-    let inner = if layers & 2 != 0 { compress_all(stream, par.block, level) } else { stream.to_vec() };
+    let inner = if layers & 2 != 0 { compress_all_opts(stream, par.block, level, close_full_blocks) } else { stream.to_vec() };
     if layers & 1 != 0 {
         let e = enc.expect("enc spec");
         img.extend_from_slice(&encrypt_stream(&e.key, &e.nonce, &inner, par.chunk));
